@@ -1,6 +1,6 @@
 (* GENERATED ONCE by tools/pin.py from Properties/C04.v and committed: the pinned statements. *)
 From VF.Properties Require C04.
-From VF Require Import Base Gen_Errors Fmt Lexer Grammar Lexer_proofs Grammar_proofs Message_proofs2.
+From VF Require Import Base Gen_Errors Fmt Lexer Grammar Lexer_proofs Grammar_proofs Message_proofs2 Message_proofs3 Lexer_ranges.
 Open Scope N_scope.
 
 Check (VF.Properties.C04.C04_lex_faithful : forall m, wf_msg m = true -> tokenize (render_msg m) = Val (map IOk (tokens_of m))).
@@ -9,6 +9,79 @@ Check (VF.Properties.C04.C04_lex_faithful_trailing_separator : forall m w, wf_ms
   = Val (map IOk (tokens_of m ++ [TUnitSeparator]))).
 Check (VF.Properties.C04.C04_lex_empty : forall w (nl : bool), wf_ws w = true ->
   tokenize (w ++ (if nl then [10] else [])) = Val []).
+Check (VF.Properties.C04.C04_tokenize_prefix : forall lead us w bad items,
+  wf_ws lead = true -> forallb Grammar_proofs.wf_uw us = true -> us <> [] -> wf_ws w = true ->
+  tokenize bad = Val items ->
+  tokenize (lead ++ render_units us ++ 59 :: w ++ bad)
+  = Val (map IOk (tokens_units us) ++ IOk TUnitSeparator :: items)).
+Check (VF.Properties.C04.C04_lex_next_range : forall l t l', lex_next l = Val (STok t l') ->
+  exists used, chars l = used ++ chars l' /\ used <> [] /\
+    match payload t with
+    | Some p => exists pre post, used = pre ++ p ++ post
+    | None => True
+    end).
+Check (VF.Properties.C04.C04_lex_next_range_suffix : forall l v s l', lex_next l = Val (STok (TDecSuffix v s) l') ->
+  exists used, chars l = used ++ chars l' /\ used <> [] /\
+    exists pre mid post, used = pre ++ v ++ mid ++ s ++ post).
+Check (VF.Properties.C04.C04_tokenize_ranges : forall input items, tokenize input = Val items ->
+  ranges input (payloads items)).
+Check (VF.Properties.C04.C04_tokenize_params_ranges : forall input items, tokenize_params input = Val items ->
+  ranges input (payloads items)).
+Check (VF.Properties.C04.C04_payload_bytes_from_input : forall input items p, tokenize input = Val items ->
+  In p (payloads items) -> forall b, In b p -> In b input).
+Check (VF.Properties.C04.C04_payload_total_length : forall input items, tokenize input = Val items ->
+  (list_sum (map (@length byte) (payloads items)) <= length input)%nat).
+Check (VF.Properties.C04.C04_tokenize_tiles : forall input items, tokenize input = Val items ->
+  exists w, input = w ++ skip_ws input /\ all_ws w /\ tiles (skip_ws input) items).
+Check (VF.Properties.C04.C04_tokenize_params_tiles : forall input items, tokenize_params input = Val items ->
+  tiles input items).
+Check (VF.Properties.C04.C04_range_mnemonic : forall l s l', lex_next l = Val (STok (TMnemonic s) l') ->
+  chars l = s ++ chars l' /\ s <> [] /\ mnemonic_bytes s /\
+  not_starting is_mnemonic_char (chars l')).
+Check (VF.Properties.C04.C04_range_char : forall l s l', lex_next l = Val (STok (TChar s) l') ->
+  exists w, chars l = s ++ w ++ chars l' /\ all_ws w /\ s <> [] /\
+    forallb is_mnemonic_char s = true /\ (length s <= 12)%nat /\
+    not_starting is_mnemonic_char (w ++ chars l') /\ at_sep (chars l')).
+Check (VF.Properties.C04.C04_range_dec : forall l s l', lex_next l = Val (STok (TDec s) l') ->
+  exists w, chars l = s ++ w ++ chars l' /\ all_ws w /\ s <> [] /\
+    forallb is_num_char s = true /\ at_sep (chars l')).
+Check (VF.Properties.C04.C04_range_decsuffix : forall l v s l', lex_next l = Val (STok (TDecSuffix v s) l') ->
+  exists w1 w2, chars l = v ++ w1 ++ s ++ w2 ++ chars l' /\ all_ws w1 /\ all_ws w2 /\
+    v <> [] /\ forallb is_num_char v = true /\
+    suffix_start s /\ forallb is_suffix_char s = true /\ (length s <= 12)%nat /\
+    not_starting is_suffix_char (w2 ++ chars l') /\ at_sep (chars l')).
+Check (VF.Properties.C04.C04_range_nondec : forall l n l', lex_next l = Val (STok (TNonDec n) l') ->
+  exists r ds w, chars l = 35 :: r :: ds ++ w ++ chars l' /\ ds <> [] /\ all_ws w /\
+    at_sep (chars l')).
+Check (VF.Properties.C04.C04_range_string : forall l s l', lex_next l = Val (STok (TString s) l') ->
+  exists q w, chars l = q :: s ++ q :: w ++ chars l' /\ (q = 34 \/ q = 39) /\ all_ws w /\
+    forallb is_ascii s = true /\ quotes_paired q s = true /\
+    hd_eqb q (w ++ chars l') = false /\ at_sep (chars l')).
+Check (VF.Properties.C04.C04_range_block : forall l s l', lex_next l = Val (STok (TBlock s) l') ->
+  (chars l = 35 :: 48 :: s ++ [10] /\ chars l' = []) \/
+  (exists d lenfield w, chars l = 35 :: d :: lenfield ++ s ++ w ++ chars l' /\
+     is_digit d = true /\ d <> 48 /\ length lenfield = N.to_nat (d - 48) /\
+     parse_usize lenfield = Some (N.of_nat (length s)) /\ all_ws w /\ at_sep (chars l'))).
+Check (VF.Properties.C04.C04_range_block_definite : forall l s l', lex_next l = Val (STok (TBlock s) l') ->
+  chars l' <> [] \/ (forall s0, chars l <> 35 :: 48 :: s0) ->
+  exists d lenfield w, chars l = 35 :: d :: lenfield ++ s ++ w ++ chars l' /\
+    (1 <= length lenfield <= 9)%nat /\ d = 48 + N.of_nat (length lenfield) /\
+    forallb is_digit lenfield = true /\
+    N.of_nat (length s) = fst (radix_digits 10 lenfield 0 0) /\ all_ws w /\ at_sep (chars l')).
+Check (VF.Properties.C04.C04_range_expr : forall l s l', lex_next l = Val (STok (TExpr s) l') ->
+  exists w, chars l = 40 :: s ++ 41 :: w ++ chars l' /\ all_ws w /\
+    forallb expr_char s = true /\ at_sep (chars l')).
+Check (VF.Properties.C04.C04_range_separator : forall l t l', lex_next l = Val (STok t l') ->
+  payload t = None -> (forall n, t <> TNonDec n) ->
+  exists x w, chars l = x :: w ++ chars l' /\ all_ws w /\
+    match t with
+    | THeaderMnemonicSeparator => x = 58 /\ w = []
+    | THeaderQuerySuffix => x = 63 /\ w = []
+    | TUnitSeparator => x = 59 /\ not_starting is_ws (chars l')
+    | TDataSeparator => x = 44 /\ not_starting is_ws (chars l')
+    | THeaderSeparator => is_ws x = true /\ not_starting is_ws (chars l')
+    | _ => False
+    end).
 Check (VF.Properties.C04.C04_lex_total : forall input, exists ts, tokenize input = Val ts).
 Check (VF.Properties.C04.C04_lex_params_total : forall input, exists ts, tokenize_params input = Val ts).
 Check (VF.Properties.C04.C04_lex_progress : forall l t l', lex_next l = Val (STok t l') ->
